@@ -10,13 +10,14 @@ Record sysdef := mkSys {
   s_async : bool;
   s_cap : nat;
   s_prog : proc -> list stmt;
+  s_gap : bool;            (* Model.gap: false only for systems without a deadline setter *)
   s_ghost : bool;
   s_env : list label;
   s_init : list state
 }.
 
 Definition s_next (d : sysdef) : state -> list (label * state) :=
-  next (s_async d) (s_cap d) (s_prog d) (s_ghost d) (s_env d).
+  next (s_async d) (s_cap d) (s_prog d) (s_gap d) (s_ghost d) (s_env d).
 
 (* the reachable states of a system: the least set containing s_init, closed under s_next *)
 Definition sreach (d : sysdef) : state -> Prop := reachable (s_init d) (s_next d).
@@ -34,7 +35,7 @@ Definition srefutes (d : sysdef) (inv : state -> bool) (s0 : state) (tr : list (
 
 (* ------------------------------------------------------------------ initial states *)
 Definition sh0 : shared :=
-  mkShared false false false false false 0 false false DNone DNone 0 false false DNone false
+  mkShared false false false false false 0 false false DNone DNone 0 false false DNone
            false false false false false.
 Definition th0 (f : proc) : thread := mkThread f PEntry no_loc false false.
 Definition st0 (fs : list proc) : state := mkState sh0 (map th0 fs) 0.
@@ -45,7 +46,7 @@ Section Pred.
 Variable d : sysdef.
 
 Definition results (t : thread) (s : shared) : list (thread * shared * nat) :=
-  thread_results (s_async d) (s_cap d) (s_prog d) (s_ghost d) t s.
+  thread_results (s_async d) (s_cap d) (s_prog d) (s_gap d) (s_ghost d) t s.
 
 (* the thread is parked at a select without default *)
 Definition at_select (t : thread) : bool :=
@@ -80,12 +81,16 @@ Definition cond_true (t : thread) (s : shared) : bool :=
   | FAcceptKCP => negb (Nat.eqb (accepts s) 0)
   | _ => false
   end.
-(* a wake-up is pending for it *)
+(* the deadline signal it watches has been broadcast: `<-changed` is ready *)
+Definition changed_pending (t : thread) : bool :=
+  match wt (lc t) with WMoved _ => true | _ => false end.
+(* a wake-up is pending for it: the token / a queued session, or a deadline change *)
 Definition wake_pending (t : thread) (s : shared) : bool :=
+  changed_pending t ||
   match fn t with
   | FRead => rtok s
   | FWriteBuffers => wtok s
-  | FAcceptKCP => negb (Nat.eqb (accepts s) 0) || ltok s   (* a queued session, or the deadline-change token *)
+  | FAcceptKCP => negb (Nat.eqb (accepts s) 0)
   | _ => false
   end.
 Definition dl_of (t : thread) (s : shared) : dlv :=
@@ -165,6 +170,29 @@ Definition inv_expiry_wakes_timer (st : state) : bool :=
           && negb (is_nil (tm (lc t))))
     || timeout_enabled t) st.
 
+(* -- expiry returns: parked, no wake-up pending, the stored deadline has PASSED => either the
+      timer's value is in the channel and the call's step returns the timeout, or the timer
+      is armed for the stored deadline and due (the runtime's LFire is enabled and leads to the
+      former): nobody stays parked past the deadline *)
+Definition inv_expiry_returns (st : state) : bool :=
+  all_threads (fun t s =>
+    negb (at_select t && negb (wake_pending t s) && match dl_of t s with DPast => true | _ => false end)
+    || (cv (lc t) &&
+        ((ch_nonempty (ch (lc t)) && can_return_with RTimeout t s) ||
+         match tm (lc t) with TRun _ true true => true | _ => false end))) st.
+
+(* -- a deadline change reaches every caller: whenever the deadline signal a call watches has
+      been broadcast, the call can move (it is parked with `<-changed` ready, or on its way
+      to the select that will find it ready) *)
+Definition inv_changed_moves (st : state) : bool :=
+  all_threads (fun t s =>
+    negb (changed_pending t) ||
+    match pc t with PEntry | PAt _ => can_move t s | _ => true end) st.
+
+(* -- systems without a deadline setter: no caller ever finds the generation it watched moved *)
+Definition inv_never_moved (st : state) : bool :=
+  forallb (fun t => negb (changed_pending t)) (ths st).
+
 (* -- closed channels are broadcast *)
 Definition inv_close_wakes (st : state) : bool :=
   all_threads (fun t s =>
@@ -197,7 +225,7 @@ Definition inv_data_first (st : state) : bool :=
 
 (* Close itself: first call closes and succeeds, any later call reports ErrClosedPipe *)
 Definition close_outcomes (g : proc) (st : state) : list res :=
-  run (s_async d) (s_cap d) (s_prog d) FUEL g true false (s_prog d g) (frame0 no_loc DNone 0 false) (sh st).
+  run (s_async d) (s_cap d) (s_prog d) (s_gap d) FUEL g true false (s_prog d g) (frame0 no_loc DNone 0 false) (sh st).
 Definition inv_second_close (g : proc) (st : state) : bool :=
   let was := closed_for (match g with FLClose => FAcceptKCP | _ => FRead end) (sh st) in
   match close_outcomes g st with
@@ -226,7 +254,7 @@ Definition inv_multi (st : state) : bool :=
       posts the token (or the session is closed, which wakes everybody) *)
 Definition inv_multi_writer (st : state) : bool :=
   inv_multi st || die (sh st) ||
-  match env_call (s_async d) (s_cap d) (s_prog d) FUpdate DNone 0 false st with
+  match env_call (s_async d) (s_cap d) (s_prog d) (s_gap d) FUpdate DNone 0 false st with
   | [] => false
   | l => forallb (fun st' => wtok (sh st') && Nat.eqb (bad st') 0) l
   end.
@@ -254,7 +282,7 @@ Definition env_write_tm : list label :=
   [LInput 0 false; LInput 0 true; LUpdate; LSetWD DNone; LSetWD DFuture; LSetWD DPast; LClose; LWErr;
    LTick WD; LStealW; LTakeRoom] ++ env_timer 1.
 Definition env_accept_tm : list label :=
-  [LArrive; LLSetRD DNone; LLSetRD DFuture; LLSetRD DPast; LLClose; LLErr; LTick LRD; LStealAccept; LStealL]
+  [LArrive; LLSetRD DNone; LLSetRD DFuture; LLSetRD DPast; LLClose; LLErr; LTick LRD; LStealAccept]
   ++ env_timer 1.
 
 (* closed systems: one caller, nobody else consumes; the call may be repeated *)
@@ -309,19 +337,19 @@ Definition fn_of (c : caller) : proc :=
 (* one call against everything the rest of the program may do to it (covers any number of
    other callers for per-call safety statements) *)
 Definition sys_tm (prog : proc -> list stmt) (c : caller) (async : bool) : sysdef :=
-  mkSys async 2 prog true
+  mkSys async 2 prog true true
         (match c with Reader => env_read_tm | Writer => env_write_tm | Accepter => env_accept_tm end)
         [st0 [fn_of c]].
 
 (* one caller of a kind, nobody else consumes, calls may follow each other *)
 Definition sys_1 (prog : proc -> list stmt) (c : caller) (async : bool) : sysdef :=
-  mkSys async 2 prog true
+  mkSys async 2 prog true true
         (match c with Reader => env_read_1 | Writer => env_write_1 | Accepter => env_accept_1 end)
         [st0 [fn_of c]].
 
 (* the same with SetDeadline (both directions) as the setter *)
 Definition sys_1d (prog : proc -> list stmt) (c : caller) (async : bool) : sysdef :=
-  mkSys async 2 prog false
+  mkSys async 2 prog true false
         (match c with Reader => env_read_1d | Writer => env_write_1d | Accepter => env_accept_1 end)
         [st0 [fn_of c]].
 
@@ -329,21 +357,21 @@ Definition sys_1d (prog : proc -> list stmt) (c : caller) (async : bool) : sysde
    (later, earlier, already past), never cleared *)
 Definition sys_rearm (prog : proc -> list stmt) (c : caller) (async : bool) : sysdef :=
   match c with
-  | Reader => mkSys async 2 prog false env_read_rearm
+  | Reader => mkSys async 2 prog true false env_read_rearm
                     [st_with (sh_rd DFuture) [FRead]; st_with (sh_rd DPast) [FRead]]
-  | Writer => mkSys async 2 prog false env_write_rearm
+  | Writer => mkSys async 2 prog true false env_write_rearm
                     [st_with (sh_wd DFuture) [FWriteBuffers]; st_with (sh_wd DPast) [FWriteBuffers]]
-  | Accepter => mkSys async 2 prog false ([LArrive; LLSetRD DFuture; LLSetRD DPast; LLClose; LLErr; LTick LRD] ++ env_timer 1 ++ env_recall 1)
+  | Accepter => mkSys async 2 prog true false ([LArrive; LLSetRD DFuture; LLSetRD DPast; LLClose; LLErr; LTick LRD] ++ env_timer 1 ++ env_recall 1)
                     [st_with (set_lrd DFuture sh0) [FAcceptKCP]; st_with (set_lrd DPast sh0) [FAcceptKCP]]
   end.
 
 (* smallest systems exhibiting the refuted deadline sequences *)
 Definition sys_none_then_set (prog : proc -> list stmt) (c : caller) (async : bool) : sysdef :=
-  mkSys async 1 prog false
+  mkSys async 1 prog true false
         (match c with Reader => env_read_dl | Writer => env_write_dl | Accepter => env_accept_dl end)
         [st0 [fn_of c]].
 Definition sys_set_zero_set (prog : proc -> list stmt) (c : caller) (async : bool) : sysdef :=
-  mkSys async 1 prog false
+  mkSys async 1 prog true false
         (match c with Reader => env_read_dl | Writer => env_write_dl | Accepter => env_accept_dl end)
         [st_with (match c with Reader => sh_rd DFuture | Writer => sh_wd DFuture | Accepter => set_lrd DFuture sh0 end)
                  [fn_of c]].
@@ -351,17 +379,56 @@ Definition sys_set_zero_set (prog : proc -> list stmt) (c : caller) (async : boo
 (* n identical callers parked with a deadline that is then replaced by a later one *)
 Definition sys_extend_n (prog : proc -> list stmt) (c : caller) (n : nat) (async : bool) : sysdef :=
   match c with
-  | Writer => mkSys async 1 prog false ([LSetWD DFuture; LTick WD] ++ env_timer n)
+  | Writer => mkSys async 1 prog true false ([LSetWD DFuture; LTick WD] ++ env_timer n)
                     [st_with (sh_wd DFuture) (rep n FWriteBuffers)]
-  | Accepter => mkSys async 1 prog false ([LLSetRD DFuture; LTick LRD] ++ env_timer n)
+  | Accepter => mkSys async 1 prog true false ([LLSetRD DFuture; LTick LRD] ++ env_timer n)
                       [st_with (set_lrd DFuture sh0) (rep n FAcceptKCP)]
-  | _ => mkSys async 1 prog false ([LSetRD DFuture; LTick RD] ++ env_timer n)
+  | _ => mkSys async 1 prog true false ([LSetRD DFuture; LTick RD] ++ env_timer n)
                [st_with (sh_rd DFuture) (rep n FRead)]
   end.
 
-(* n identical callers on one session / listener *)
+(* n identical callers parked (or about to park) on one session / listener while the deadline
+   they wait on is set, replaced and cleared in every order: every setter value (none / some
+   future instant / an instant already past) any number of times, the clock reaching the stored
+   deadline, the runtime's timers (incl. timers still armed for a replaced deadline) and - with
+   `wake` - what the callers wait for becoming possible once in a while (so that the data /
+   window / backlog wake-up and the deadline broadcast interleave).  The initial states cover a
+   deadline that is absent, pending or already expired at entry.  Hence the change classes
+   none->set, set->later, set->earlier, set->zero->set, set->past and cleared are all paths of
+   this system. *)
+Definition env_change_n (c : caller) (n : nat) (wake : bool) : list label :=
+  match c with
+  | Reader => [LSetRD DNone; LSetRD DFuture; LSetRD DPast; LTick RD] ++ (if wake then [LInput 1 false] else [])
+  | Writer => [LSetWD DNone; LSetWD DFuture; LSetWD DPast; LTick WD] ++ (if wake then [LInput 0 true; LUpdate] else [])
+  | Accepter => [LLSetRD DNone; LLSetRD DFuture; LLSetRD DPast; LTick LRD] ++ (if wake then [LArrive] else [])
+  end ++ env_timer n.
+Definition sys_change_n (prog : proc -> list stmt) (c : caller) (n : nat) (wake : bool) (async : bool) : sysdef :=
+  let w := match c with Reader => set_rd | Writer => set_wd | Accepter => set_lrd end in
+  mkSys async 1 prog true false (env_change_n c n wake)
+        [st0 (rep n (fn_of c)); st_with (w DFuture sh0) (rep n (fn_of c)); st_with (w DPast sh0) (rep n (fn_of c))].
+
+(* the order inside a deadline setter (the environment procedures run atomically in this model,
+   so the order is checked on the skeleton): straight-line code in which every X.broadcast()
+   comes after the X.Store(t) of the same deadline and no store follows its broadcast.  A
+   setter that broadcasts first could wake a caller that then re-loads the OLD deadline. *)
+Fixpoint store_then_bcast (stored bcast : list which) (ss : list stmt) : bool :=
+  match ss with
+  | [] => true
+  | SCall (PStore w) :: r => negb (existsb (which_beq w) bcast) && store_then_bcast (w :: stored) bcast r
+  | SCall (PBroadcast w) :: r => existsb (which_beq w) stored && store_then_bcast stored (w :: bcast) r
+  | SCall _ :: r => store_then_bcast stored bcast r
+  | SReturn _ :: r => store_then_bcast stored bcast r
+  | _ => false
+  end.
+Definition setter_order_ok (prog : proc -> list stmt) : bool :=
+  forallb (fun g => store_then_bcast [] [] (prog g))
+          [FSetDeadline; FSetReadDeadline; FSetWriteDeadline; FLSetDeadline; FLSetReadDeadline; FLSetWriteDeadline].
+
+(* n identical callers on one session / listener.  No deadline setter in the environment: the
+   generation of the deadline signals never moves (inv_never_moved, part of the bundles below), so
+   the yield point after watch() is left out (s_gap = false). *)
 Definition sys_n (prog : proc -> list stmt) (c : caller) (n : nat) (async : bool) : sysdef :=
-  mkSys async 3 prog false
+  mkSys async 3 prog false false
         (match c with Reader => env_read_n n | Writer => env_write_n n | Accepter => env_accept_n n end)
         [st0 (rep n (fn_of c))].
 
@@ -382,16 +449,25 @@ Definition rearm_inv (d : sysdef) : state -> bool :=
   inv_and [inv_ok; inv_deadline_seen d; inv_expiry_wakes d].
 (* products *)
 Definition n_inv (c : caller) (d : sysdef) : state -> bool :=
-  inv_and ([inv_ok; inv_close_wakes d; inv_error_wakes d]
+  inv_and ([inv_ok; inv_close_wakes d; inv_error_wakes d; inv_never_moved]
            ++ match c with Reader => [] | Writer => [inv_multi_writer d] | Accepter => [inv_multi d] end).
 (* what the repaired Read / WriteBuffers satisfy in the closed one-caller system *)
 Definition fixed_one_inv (c : caller) (d : sysdef) : state -> bool :=
   inv_and [one_inv c d; inv_deadline_seen d; inv_expiry_wakes d].
 Definition fixed_n_inv (d : sysdef) : state -> bool :=
-  inv_and [inv_ok; inv_close_wakes d; inv_error_wakes d; inv_multi d].
+  inv_and [inv_ok; inv_close_wakes d; inv_error_wakes d; inv_never_moved; inv_multi d].
 (* ... and with the stored deadline re-validated when the timer fires (repair `all2`) *)
 Definition strong_tm_inv (d : sysdef) : state -> bool := inv_and [tm_inv d; inv_no_early_strong d].
 Definition strong_one_inv (c : caller) (d : sysdef) : state -> bool :=
   inv_and [fixed_one_inv c d; inv_no_early_strong d].
 Definition strong_extend_inv (d : sysdef) : state -> bool :=
   inv_and [inv_ok; inv_no_early_strong d; inv_expiry_wakes d].
+(* several callers, every deadline change class (the broadcast repair) *)
+Definition change_inv (d : sysdef) : state -> bool :=
+  inv_and [inv_ok; inv_no_early_strong d; inv_cleared d; inv_deadline_seen d; inv_expiry_wakes d;
+           inv_expiry_returns d; inv_changed_moves d].
+(* ... and the same for ONE call against everything the rest of the program can do to it (sys_tm):
+   since a deadline change is broadcast, following it no longer depends on winning a token, so the
+   statement is per call and holds with ANY number of other callers; one exploration serves this
+   bundle and the per-call safety bundles *)
+Definition change_tm_inv (d : sysdef) : state -> bool := inv_and [strong_tm_inv d; change_inv d].
